@@ -495,6 +495,8 @@ def history_job(job):
 
 
 def run(ctx):
+    from vlib import concur
+    concur.register(ctx, "C01")
     ctx.shard(history_job, [(t, k) for t in ("udp", "tcp", "aa55") for k in (False, True)],
               "histories of 3 different requests on one protocol object (first: answered / dropped afterwards / rejected / silent; second: lost, "
               "connect failures, fragments ...): every delivered result is a validated answer to ITS request")
@@ -515,6 +517,10 @@ def run(ctx):
 
 
 def replay(ctx, case):
+    if isinstance(case, dict) and case.get("overlap") and "callers" in case:
+        from vlib import concur
+        concur.replay(ctx.acc, case, concur.INVARIANTS["C01"], "C01")
+        return
     if case.get("history"):
         for key, msg, c in history_case(ctx.acc, case):
             ctx.acc.fail(key, msg, c)
